@@ -155,6 +155,17 @@ PROPS = {
                           'a bool given for an int parameter is accepted by check_integer (bool is an int in Python) and not counted as wrongly typed. A-exc: exceptions raised by NumPy on '
                           'malformed arrays (wrong shapes) are outside the claim. NOT decided: printing (str) totality as its own obligation; "never raises" after the prologue (C08).',
             'not_decided': ['str(result) total', 'RuntimeError from projection initialisation with npt != n+1 (the statement\'s own limitation D14)']},
+    'C19': {'bundles': ['owner', 'ledger'], 'level': 'proof',
+            'level_text': '(a) Ownership: solve is executed with flow- and path-sensitive tags (borrowed / fresh); no in-place write (element, slice or mask store, augmented assignment, '
+                          'mutating method) reaches a possibly-borrowed object and every mutable array handed to the rest of the package is fresh; no function of the package writes to a '
+                          'projection list it received. (b) Determinism: np.random is used only in three source functions; the two direction generators are called only from five sites, '
+                          'and each of those calls is proved to lie under its documented random option (init.random_initial_directions, regression.momentum_extra_steps, '
+                          'restarts.increase_npt, growing.perturb_trust_region_step / the growing phase).',
+            'level_note': 'Domain O: NumPy allocation/view rules as listed in pyvc/domains/own.py (A-lib); the caller\'s own callables are outside the claim (A-callback). For (b): '
+                          'the link "the main loop is in the growing phase only if growing.ndirs_initial < npt-1 (or restarts enlarge the set)" is NOT decided (numeric assumption N5), and '
+                          'with projections the rank-deficiency fallback of the coordinate initialisation draws random numbers unconditionally (used only if the projected directions are '
+                          'rank deficient): with projections the clause is not decided. ' + LEDGER_NOTE,
+            'not_decided': ['N5 growing-phase link', 'projections: rank-deficiency fallback (path-sensitive taint not built)']},
     'C20': {'bundles': ['jsonrt'], 'level': 'proof',
             'level_text': 'Field-wise: to_dict writes exactly the 12 fields, each with the documented encoding (contract on the real body); from_dict decodes each key into the '
                           'field of the same name through the real constructor (call conformance, parameter order); 24 round-trip lemmas DEC_f(json(ENC_f(v))) == norm_f(v) over '
